@@ -59,6 +59,23 @@ class Opaque:
         self.why = why
 
 
+class OptVal:        # Option<T> whose discriminant is known on this path
+    def __init__(self, some, payload=None):
+        self.some = some
+        self.payload = payload
+
+
+class VariantView:   # `(place as Variant)`: field .0 is the payload
+    def __init__(self, base, variant):
+        self.base = base
+        self.variant = variant
+
+
+class FnRef:         # a function item / fn pointer
+    def __init__(self, path):
+        self.path = path
+
+
 class Unsupported(Exception):
     pass
 
@@ -139,6 +156,7 @@ class Exec:
         self.variants = variants                  # enum variant names in discriminant order
         self.outcomes = []
         self.all_funcs = all_funcs or {}
+        self.depth = 0
 
     # ---------------------------------------------------------------- operands / places
     def const(self, txt):
@@ -179,38 +197,68 @@ class Exec:
             return Sc("bv", bvconst(v, 32), 32, False)
         if t.startswith('"'):
             return Opaque("str const")
+        m = re.fullmatch(r"core::num::<impl (\w+)>::BITS", t)
+        if m and m.group(1) in INT_TYPES:
+            return Sc("bv", bvconst(INT_TYPES[m.group(1)][0], 32), 32, False)
+        # a named constant of the crate: evaluate its body (no parameters, no branching expected)
+        item = self.all_funcs.get("const " + t.split("::")[-1])
+        if item is not None and item.blocks and self.depth < 6:
+            sub = Exec(item, list(self.params.values()), self.variants, self.all_funcs)
+            sub.depth = self.depth + 1
+            sub.walk("bb0", {}, [], set())
+            rets = [o for o in sub.outcomes if o.kind == "return"]
+            if len(rets) >= 1 and isinstance(rets[0].value, Sc):
+                # panicking branches of a const initialiser are compile errors, not run-time paths
+                return rets[0].value
         raise Unsupported("const " + t)
 
     def place(self, env, txt):
+        """Recursive place expressions: _N | (*P) | (P.i: T) | (P as Variant)"""
         t = txt.strip()
         if re.fullmatch(r"_\d+", t):
             if t not in env:
                 raise Unsupported("read of unassigned local " + t)
             return env[t]
-        # (((*_N) as Variant).0: T)
-        m = re.fullmatch(r"\(\(\(\*(_\d+)\) as (\w+)\)\.0: [^)]*\)", t)
-        if m:
-            r = self.place(env, m.group(1))
-            if isinstance(r, ObjRef):
-                return self.params[r.k].payload(m.group(2))
-            raise Unsupported("variant projection of a non-parameter " + t)
-        m = re.fullmatch(r"\(\*(_\d+)\)", t)
-        if m:
-            r = self.place(env, m.group(1))
+        if not (t.startswith("(") and t.endswith(")")):
+            raise Unsupported("place " + t)
+        inner = t[1:-1]
+        if inner.startswith("*"):
+            r = self.place(env, inner[1:])
             if isinstance(r, PayRef):
                 return self.params[r.k].payload(r.variant)
             if isinstance(r, Ref):
                 return r.v
             if isinstance(r, ObjRef):
-                return r            # (*p) used as an object place (discriminant etc.)
+                return r            # (*p) used as an object place (discriminant, variant projection)
             raise Unsupported("deref of " + repr(r))
-        # (_N.i: T)
-        m = re.fullmatch(r"\((_\d+)\.(\d+): .*\)", t)
-        if m:
-            v = self.place(env, m.group(1))
-            if isinstance(v, Tup):
-                return v.items[int(m.group(2))]
-            raise Unsupported("field of non-tuple " + t)
+        # split "<place> as Variant"  or  "<place>.i: Type" at depth 0
+        depth = 0
+        k = 0
+        while k < len(inner):
+            ch = inner[k]
+            if ch in "(<[":
+                depth += 1
+            elif ch in ")>]":
+                depth -= 1
+            elif depth == 0 and inner.startswith(" as ", k):
+                base = self.place(env, inner[:k])
+                return VariantView(base, inner[k + 4:].strip())
+            elif depth == 0 and ch == "." and k > 0:
+                m = re.match(r"\.(\d+): ", inner[k:])
+                if m:
+                    base = self.place(env, inner[:k])
+                    idx = int(m.group(1))
+                    if isinstance(base, Tup):
+                        return base.items[idx]
+                    if isinstance(base, VariantView):
+                        b = base.base
+                        if isinstance(b, ObjRef):
+                            return self.params[b.k].payload(base.variant)
+                        if isinstance(b, OptVal) and base.variant == "Some" and b.some and idx == 0:
+                            return b.payload
+                        raise Unsupported("variant field of " + repr(b))
+                    raise Unsupported("field of " + repr(base))
+            k += 1
         raise Unsupported("place " + t)
 
     def operand(self, env, txt):
@@ -317,10 +365,12 @@ class Exec:
                 return Sc("bv", bvconst(self.variants.index(self.params[v.k].variant), 64), 64, True)
             if isinstance(v, OptOrd):
                 return Sc("bv", f"(ite {v.some} {bvconst(1, 64)} {bvconst(0, 64)})", 64, True)
+            if isinstance(v, OptVal):
+                return Sc("bv", bvconst(1 if v.some else 0, 64), 64, True)
             raise Unsupported("discriminant of " + repr(v))
         if t.startswith("&"):
             inner = re.sub(r"^&(mut )?", "", t).strip()
-            m = re.fullmatch(r"\(\(\(\*(_\d+)\) as (\w+)\)\.0: [^)]*\)", inner)
+            m = re.fullmatch(r"\(\(\(\*(_\d+)\) as (\w+)\)\.0: .*\)", inner)
             if m:
                 r = self.place(env, m.group(1))
                 if isinstance(r, ObjRef):
@@ -329,6 +379,14 @@ class Exec:
             if m:
                 return self.place(env, m.group(1))   # reborrow
             return Ref(self.place(env, inner))
+        m = re.fullmatch(r"(.+) as (?:unsafe )?fn\(.*\) -> .+ \(PointerCoercion\(ReifyFnPointer.*\)\)", t)
+        if m:
+            return FnRef(re.sub(r"^(const|copy|move) ", "", m.group(1).strip()))
+        m = re.fullmatch(r"Option::<[\w:]+>::Some\((.+)\)", t)
+        if m and "Ordering" not in t:
+            return OptVal(True, self.operand(env, m.group(1)))
+        if re.fullmatch(r"Option::<[\w:]+>::None", t) and "Ordering" not in t:
+            return OptVal(False)
         m = re.fullmatch(r"(.+) as ([\w:<>]+) \((\w+)(?:\([^)]*\))?\)", t)
         if m:
             return self.cast(self.operand(env, m.group(1)), m.group(2), m.group(3))
@@ -358,6 +416,7 @@ class Exec:
             v = self.operand(env, m.group(1))
             if isinstance(v, Sc):
                 return OptOrd("true", self.cast_bv(v, 8, True))
+            raise Unsupported("Some(Ordering) of " + repr(v))
         m = re.fullmatch(r"\((.+), (.+)\)", t)
         if m and not t.startswith("(*") and not t.startswith("(("):
             return Tup([self.operand(env, m.group(1)), self.operand(env, m.group(2))])
@@ -370,6 +429,37 @@ class Exec:
     def call(self, env, path, args, conds):
         """-> list of (value, extra_conds) continuations, or raises; may append panic outcomes."""
         a = [self.operand(env, x) for x in args]
+        # call through a local holding a fn pointer / fn item
+        if re.fullmatch(r"(copy |move )?_\d+", path.strip()):
+            f = self.place(env, re.sub(r"^(copy|move) ", "", path.strip()))
+            if not isinstance(f, FnRef):
+                raise Unsupported("indirect call through " + repr(f))
+            path = f.path
+        # crate-local function whose MIR body is in the dump: execute it in place (loop-free helpers)
+        callee = self.all_funcs.get(path) or self.all_funcs.get(re.sub(r"::<.*>$", "", path))
+        if callee is None:
+            mm = re.fullmatch(r"(?:object::)?Object::(\w+)", path)
+            if mm:
+                pat = re.compile(r"object::<impl at src/object/mod\.rs:[^>]*>::" + mm.group(1) + r"$")
+                cands = [f for n, f in self.all_funcs.items() if pat.search(n)]
+                if len(cands) == 1:
+                    callee = cands[0]
+        if callee is not None and callee.blocks and self.depth < 6:
+            sub = Exec(callee, list(self.params.values()), self.variants, self.all_funcs)
+            sub.depth = self.depth + 1
+            env2 = {}
+            if len(callee.params) != len(a):
+                raise Unsupported("arity mismatch calling " + path)
+            for (l, _ty), v in zip(callee.params, a):
+                env2[l] = v
+            sub.walk("bb0", env2, [], set())
+            conts = []
+            for o in sub.outcomes:
+                if o.kind == "return":
+                    conts.append((o.value, list(o.conds)))
+                else:
+                    self.outcomes.append(Outcome(o.kind, o.value, conds + list(o.conds), path))
+            return conts
 
         def deref(v):
             if isinstance(v, PayRef):
@@ -429,11 +519,24 @@ class Exec:
                 return [(self.cast(a[0], dst, "IntToInt"), [])]
             if dst == "f64" and src in INT_TYPES:
                 return [(self.cast(a[0], "f64", "IntToFloat"), [])]
+        if re.fullmatch(r"<f64 as (?:std::ops::)?Rem(?:<f64>)?>::rem", path):
+            raise Unsupported("float Rem (Rust's % is fmod; SMT-LIB fp.rem is IEEE remainder)")
         m = re.fullmatch(r"<(\w+) as (?:std::ops::)?(Add|Sub|Mul|Div|Neg|BitAnd|BitOr|BitXor)(?:<\w+>)?>::(\w+)", path)
         if m and m.group(1) == "f64" and all(isinstance(x, Sc) for x in a):
             if m.group(2) == "Neg":
                 return [(Sc("fp", f"(fp.neg {a[0].term})"), [])]
             return [(self.binop(m.group(2), a[0], a[1]), [])]
+        if m and m.group(1) in INT_TYPES and m.group(2) in ("BitAnd", "BitOr", "BitXor") and all(isinstance(x, Sc) for x in a):
+            return [(self.binop(m.group(2), a[0], a[1]), [])]      # (Add/Sub/Mul/Div on ints carry overflow checks: not modelled as calls)
+        m = re.fullmatch(r"<(\w+) as Ord>::cmp", path)
+        if m and m.group(1) in INT_TYPES:
+            x, y = deref(a[0]), deref(a[1])
+            lt, gt = self.binop("Lt", x, y).term, self.binop("Gt", x, y).term
+            return [(Sc("bv", f"(ite {lt} {bvconst(-1, 8)} (ite {gt} {bvconst(1, 8)} {bvconst(0, 8)}))", 8, True), [])]
+        m = re.fullmatch(r"<&(\w+) as PartialEq>::(eq|ne)", path)
+        if m and (m.group(1) in INT_TYPES or m.group(1) in ("f64", "bool")):
+            r = self.binop("Eq" if m.group(2) == "eq" else "Ne", deref(deref(a[0])), deref(deref(a[1])))
+            return [(r, [])]
         if re.search(r"Arguments::<'_>::(from_str|new_const|new)", path) or path.endswith("Arguments::from_str"):
             return [(Opaque("fmt::Arguments"), [])]
         raise Unsupported("call " + path)
@@ -553,14 +656,16 @@ class Exec:
 def split_args(s):
     out, depth, cur = [], 0, ""
     instr = False
+    prev = ""
     for ch in s:
         if ch == '"':
             instr = not instr
         if not instr:
             if ch in "<([":
                 depth += 1
-            elif ch in ">)]":
+            elif ch in ")]" or (ch == ">" and prev != "-"):  # "->" is not a closing bracket
                 depth -= 1
+        prev = ch
         if ch == "," and depth == 0 and not instr:
             out.append(cur.strip())
             cur = ""
